@@ -276,6 +276,71 @@ static std::string opRepro(const Toks& t) {
   return std::string(same ? "1" : "0") + " " + (first ? "1" : "0") + " " + (differs ? "1" : "0");
 }
 
+// ---------------------------------------------------------------- one routine, no hidden state
+// `repro1 <routine> <seed> <pre1> <pre2>`: two executions A and B of
+//     setSeed(other); <routine> called pre times; setSeed(seed); <routine> called 3 times
+// with pre = pre1 resp. pre2.  Answer: the values observed after the second setSeed in A ; in B ; whether the
+// generator ended in the same state.  If the routine is a function of (generator state, arguments) only, A and B
+// agree whatever happened before the seed was set.
+static void reproCall(const std::string& r, std::vector<double>& out) {
+  auto push = [&](double x) { out.push_back(x); };
+  std::vector<int> v = {1, 2, 3, 4, 5, 6, 7};
+  std::vector<double> w = {1, 2, 3, 4, 5, 6, 7};
+  if (r == "giveRandomNumberBetweenZeroAndEntry") push(RandomTools::giveRandomNumberBetweenZeroAndEntry(2.5));
+  else if (r == "giveIntRandomNumberBetweenZeroAndEntry") push(static_cast<double>(RandomTools::giveIntRandomNumberBetweenZeroAndEntry<size_t>(1000)));
+  else if (r == "flipCoin") push(RandomTools::flipCoin(0.3) ? 1. : 0.);
+  else if (r == "randGaussian") push(RandomTools::randGaussian(1., 2.));
+  else if (r == "randGamma1") push(RandomTools::randGamma(0.7));
+  else if (r == "randGamma2") push(RandomTools::randGamma(2.5, 3.));
+  else if (r == "randBeta") push(RandomTools::randBeta(2., 3.));
+  else if (r == "randExponential") push(RandomTools::randExponential(2.));
+  else if (r == "pickOne") { push(RandomTools::pickOne(v, false)); push(RandomTools::pickOne(v, true)); }
+  else if (r == "pickOneConst") push(RandomTools::pickOne(const_cast<const std::vector<int>&>(v)));
+  else if (r == "pickOneW") { push(RandomTools::pickOne(v, w, false)); push(RandomTools::pickOne(v, w, true)); }
+  else if (r == "pickOneWConst") push(RandomTools::pickOne(const_cast<const std::vector<int>&>(v), const_cast<const std::vector<double>&>(w)));
+  else if (r == "getSample") { std::vector<int> o(5); RandomTools::getSample(v, o, false); for (int x : o) push(x); }
+  else if (r == "getSampleRepl") { std::vector<int> o(9); RandomTools::getSample(v, o, true); for (int x : o) push(x); }
+  else if (r == "getSampleW") { std::vector<int> o(4); RandomTools::getSample(v, w, o, false); for (int x : o) push(x); }
+  else if (r == "getSampleWRepl") { std::vector<int> o(9); RandomTools::getSample(v, w, o, true); for (int x : o) push(x); }
+  else if (r == "pickFromCumSum") { std::vector<double> c = {0.1, 0.3, 0.35, 0.8, 1.0}; push(static_cast<double>(RandomTools::pickFromCumSum(c))); }
+  else if (r == "randMultinomial") { for (size_t x : RandomTools::randMultinomial(5, w)) push(static_cast<double>(x)); }
+  else if (r == "rcont2") {
+    ContingencyTableGenerator g(std::vector<size_t>{4, 6, 5}, std::vector<size_t>{7, 5, 3});
+    RowMatrix<size_t> tb = g.rcont2();
+    for (size_t i = 0; i < 3; ++i) for (size_t j = 0; j < 3; ++j) push(static_cast<double>(tb(i, j)));
+  }
+  else if (r == "ContingencyTableTest") {
+    std::vector<std::vector<size_t>> tb = {{6, 2, 3}, {1, 7, 4}};
+    ContingencyTableTest test(tb, 25, false); push(test.getPValue());
+  }
+  else if (r == "discreteRand") { SimpleDiscreteDistribution d(std::vector<double>{1., 2., 5.}, std::vector<double>{0.25, 0.5, 0.25}, 1e-6, true); push(d.rand()); }
+  else if (r == "Gamma::randC") { GammaDiscreteDistribution d(4, 2., 3.); push(d.randC()); push(d.rand()); }
+  else if (r == "Gaussian::randC") { GaussianDiscreteDistribution d(4, 1., 2.); push(d.randC()); push(d.rand()); }
+  else if (r == "Exponential::randC") { ExponentialDiscreteDistribution d(4, 2.); push(d.randC()); push(d.rand()); }
+  else if (r == "TruncExponential::randC") { TruncatedExponentialDiscreteDistribution d(4, 2., 3.); push(d.randC()); push(d.rand()); }
+  else if (r == "Beta::randC") { BetaDiscreteDistribution d(4, 2., 3.); push(d.randC()); push(d.rand()); }
+  else if (r == "Uniform::randC") { UniformDiscreteDistribution d(4, -1., 3.); push(d.randC()); push(d.rand()); }
+  else if (r == "hmmSample") { auto tm = makeHmm(2, std::vector<double>{0.9, 0.1, 0.2, 0.8}); for (size_t x : tm->sample(6)) push(static_cast<double>(x)); }
+  else throw Exception("unknown routine " + r);
+}
+
+static std::string opRepro1(const Toks& t) {
+  const std::string& r = t[1];
+  auto seed = static_cast<std::mt19937::result_type>(toU(t[2]));
+  size_t pre[2] = {toU(t[3]), toU(t[4])};
+  std::vector<double> obs[2];
+  std::mt19937 fin[2];
+  for (int k = 0; k < 2; ++k) {
+    std::vector<double> junk;
+    RandomTools::setSeed(static_cast<std::mt19937::result_type>(seed * 7919u + 17u + static_cast<unsigned>(k)));
+    for (size_t i = 0; i < pre[k]; ++i) reproCall(r, junk);
+    RandomTools::setSeed(seed);
+    for (int i = 0; i < 3; ++i) reproCall(r, obs[k]);
+    fin[k] = RandomTools::DEFAULT_GENERATOR;
+  }
+  return showD(obs[0]) + " ;" + showD(obs[1]) + " ; " + (fin[0] == fin[1] ? "1" : "0");
+}
+
 static std::string op(const Toks& t) {
   const std::string& o = t[0];
   if (o == "seed") { RandomTools::setSeed(static_cast<std::mt19937::result_type>(toU(t[1]))); return "ok"; }
@@ -387,6 +452,7 @@ static std::string op(const Toks& t) {
   if (o == "chi2d") return opChi2Dist(t);
   if (o == "chi2rc") return opChi2Rc(t);
   if (o == "repro") return opRepro(t);
+  if (o == "repro1") return opRepro1(t);
   return "bad-op";
 }
 
